@@ -100,6 +100,18 @@ Theorem C17_n_train : forall keys thr min_s,
 Proof. exact n_train_floor. Qed.
 Print Assumptions C17_n_train.
 
+(* on ascending log-likelihoods: unless the min_samples floor takes over, the proposal is trained only on samples at or
+   above the threshold; when it does take over, on exactly min_samples samples *)
+Theorem C17_n_train_above_threshold : forall keys thr min_s,
+  (forall i j, (i <= j < length keys)%nat -> nth i keys 0 <= nth j keys 0) ->
+  existsb (fun k => thr <=? k) keys = true ->
+  (Z.of_nat (argmax_ge_key keys thr) <= Z.of_nat (length keys) - min_s ->
+     forall j, n_train keys thr min_s <= Z.of_nat j < Z.of_nat (length keys) -> thr <= nth j keys 0)
+  /\ (Z.of_nat (length keys) - min_s < Z.of_nat (argmax_ge_key keys thr) ->
+     Z.of_nat (length keys) - n_train keys thr min_s = min_s).
+Proof. exact n_train_sorted. Qed.
+Print Assumptions C17_n_train_above_threshold.
+
 (* the weighted (Harrell-Davis) quantile is a convex combination of the data for every monotone
    B with B 0 = 0, B 1 = 1 (the regularised incomplete beta function is an oracle) *)
 Theorem C17_quantile_convex :
